@@ -361,6 +361,10 @@ def loss_case(draw, driver=None):
             "horizon": max([e["t"] for e in events] + [c["t0"] for c in callers]) + interval * 6 + 2}
     if draw(st.integers(0, 2)) == 0:
         case["glob"] = True       # the device path is a pattern: an unplugged gateway's node does not exist at all
+        if draw(st.booleans()):
+            for e in events:      # ... and it comes back under another number (USB re-enumeration)
+                if e["what"] == "restore" and draw(st.booleans()):
+                    e["renamed"] = True
     if drv == "tridonic":
         case["seq0"] = draw(st.sampled_from([1, 200, 255]))
     return case
@@ -417,7 +421,7 @@ def mute_case(draw, driver=None):
         # the gateway keeps confirming but never reports an answer: every query must come back as "no answer"
         events = [{"t": -0.001, "what": "mute_answers"}]
     else:
-        events = [{"t": draw(st.sampled_from([-0.001, 0.0, 0.004, 0.02, 0.04])), "what": "mute"}]
+        events = [{"t": draw(st.sampled_from([-0.001, 0.0, 0.004, 0.016, 0.02, 0.03, 0.04, 0.05, 0.06, 0.075])), "what": "mute"}]
         for c in callers:           # an answer may or may not already be under way: only silent outcomes are judged
             for x in c["cmds"]:
                 if "oc" in x:
@@ -437,6 +441,8 @@ def features(case):
         f.append("event:" + e["what"] + (":silent" if e.get("notify") is False else ":eof" if e.get("eof") else ""))
     if case.get("glob"):
         f.append("device-path-is-a-glob-pattern")
+    if any(e.get("renamed") for e in case.get("events", [])):
+        f.append("device-back-under-another-node-name")
     if case["family"] == "loss":
         f.append("limit:%r" % case.get("reconnect_limit"))
         f.append("exceptions:%s" % case.get("exceptions"))
